@@ -130,6 +130,9 @@ func init() {
 		Mutant{Prop: "C13", Name: "failed-add-keeps-all-valid-flag", File: fSimple, Func: "SimpleCommonMessageSignatureProof.MergeSparse",
 			Find: `(if err := p\.AddSignature\(sparseSig\.Sig, key\); err != nil \{\n)\t\t\tres\.AllValidSignatures = false\n`, Repl: "$1", Expect: []string{"C13.4"}},
 
+		Mutant{Prop: "C13", Name: "bls-rest-order-without-tie-break", File: "gcrypto/gblsminsig/signatureproofscheme.go", Func: "sortRestForFinalizing",
+			Find: `(?s)ret := bytes\.Compare\(aa\.msg, bb\.msg\).*?return ret\n`, Repl: "_ = aa.msg\n\t\t_ = bb.msg\n\t\treturn 0\n", Expect: []string{"C13.7"}},
+
 		// ---- C14
 		Mutant{Prop: "C14", Name: "decoder-drops-data-id", File: fJSON, Func: "jsonHeader.ToHeader",
 			Find: `\t\tDataID:           jh\.DataID,\n`, Repl: "", Expect: []string{"C14.1"}},
@@ -159,6 +162,9 @@ func init() {
 		Mutant{Prop: "C15", Name: "sort-comparator-mixes-fields", File: fHash, Func: "SimpleHashScheme.Block",
 			Find: `prevCommitBlocks\[i\]\.key < prevCommitBlocks\[j\]\.key`, Repl: "prevCommitBlocks[i].raw < prevCommitBlocks[j].key", Expect: []string{"C15.2"}},
 
+		Mutant{Prop: "C15", Name: "vote-powers-bypass-the-buffer", File: fHash, Func: "SimpleHashScheme.VotePowers",
+			Find: `fmt\.Fprintf\(&buf, "%d", pow\)`, Repl: `fmt.Fprintf(hasher, "%d", pow)`, Expect: []string{"C15.4"}},
+
 		// ---- C16
 		Mutant{Prop: "C16", Name: "writer-under-read-lock", File: fAStore, Func: "ActionStore.SavePrecommitAction",
 			Find: `s\.mu\.Lock\(\)\n\tdefer s\.mu\.Unlock\(\)`, Repl: "s.mu.RLock()\n\tdefer s.mu.RUnlock()", Expect: []string{"C16.1"}},
@@ -182,6 +188,9 @@ func init() {
 
 		Mutant{Prop: "C17", Name: "precommit-change-test-on-vote-power", File: fChatty, Func: "ChattyStrategy.broadcastUpdatesOnly",
 			Find: `if curPrecommitCount != prevPrecommitCount \{`, Repl: "if cur.VoteSummary.TotalPrecommitPower != prev.VoteSummary.TotalPrecommitPower {", Expect: []string{"C17.3"}},
+
+		Mutant{Prop: "C17", Name: "promoted-view-diffed-against-next-round-snapshot", File: fChatty, Func: "ChattyStrategy.kernel",
+			Find: `if !s\.broadcastViewDiff\(ctx, prevVotingView, \*u\.Voting\) \{`, Repl: "_ = prevVotingView\n\t\t\t\tif !s.broadcastUpdatesOnly(ctx, prevNextRoundView, *u.Voting) {", Expect: []string{"C17.2"}},
 
 		// ---- C18
 		Mutant{Prop: "C18", Name: "majority-off-by-one-for-remainder-two", File: fMath, Func: "ByzantineMajority",
@@ -236,6 +245,8 @@ func init() {
 			Find: `case req := <-t\.startTimerRequests:\n(\t\t\t//)`, Repl: "case req := <-t.startTimerRequests:\n\t\t\tif req.Dur < 0 {\n\t\t\t\tpanic(errors.New(\"negative\"))\n\t\t\t}\n$1", Expect: []string{"C12.4"}},
 		Mutant{Prop: "C12", Name: "fired-timer-handed-to-cancel-path", File: fTimer, Func: "StandardRoundTimer.background",
 			Find: `(case <-timer\.C:\n)(\t\t\t// The timer elapsed\.)`, Repl: "${1}\t\t\tselect {\n\t\t\tcase <-cancelTimer:\n\t\t\t\tgoto RUNNING\n\t\t\tdefault:\n\t\t\t}\n$2", Expect: []string{"C12.6"}},
+		Mutant{Prop: "C12", Name: "rearmed-timer-not-listened-to", File: fTimer, Func: "StandardRoundTimer.background",
+			Find: `(?s)\n\tRUNNING:\n(.*?startTimer\(req\)\n\t\t\t\t)goto RUNNING`, Repl: "\n${1}continue", Expect: []string{"C12.7"}},
 		Mutant{Prop: "C12", Name: "cancel-closes-elapsed-channel", File: fTimer, Func: "StandardRoundTimer.background",
 			Find: `// Don't close the channel on cancel\.`, Repl: "close(timerElapsed)", Expect: []string{"C12.5"}},
 	)
